@@ -10,5 +10,8 @@ structure State where
   live : Value := .null
   managers : Managed := []
   updater : Updater := { converter := Converter.identity, ignore := fun _ => none }
+  -- multi-version mode: the version label is the name of the object's type; the live object is
+  -- converted to the request's version before each call (as `internal/fixture` does)
+  multiVersion : Bool := false
 
 end Driver
